@@ -147,6 +147,8 @@ impl TrackerChild {
     /// `config` is a JSON object merged over the crate's default configuration; the listen address is filled in here.
     pub fn spawn(kind: &'static str, mut config: serde_json::Value, envs: &[(&str, String)]) -> TrackerChild {
         let port = free_port();
+        // "PORT1" anywhere in the configuration: second port of the block (e.g. the metrics endpoint)
+        config = serde_json::from_str(&config.to_string().replace("PORT1", &(port + 1).to_string())).unwrap();
         let net = config.as_object_mut().unwrap().entry("network").or_insert(serde_json::json!({}));
         if kind == "ws" {
             if net.get("address").is_none() {
